@@ -39,6 +39,10 @@ claimed = {
          "linearizability search in TLA+ (NfsLin over NfsSpec) on recorded concurrent histories and directed window schedules", "5 C03"),
  "C14": ("other", "Reduced scope (DESIGN.md section 8): the mechanism 'a cached inode is read or written only by a goroutine whose transaction holds that inode's lock'. Lock events (fstxn hook) and entries of every inode method (inode hook) of concurrent runs are recorded in one sequence with goroutine ids; LockTrace.tla (TLC) requires every access to be by a goroutine holding the lock and every release to be by the holder. Races on memory that is not a cached inode (statistics, shrinker counters, go-journal internals) are outside this check.",
          "lock-discipline invariant in TLA+ (LockTrace) over recorded lock/access traces", "5 C14, 8"),
+ "C06": ("model_checking", "LockReplay.tla takes as constants the inode-lock programs (acquire/release sequences, with retries) that the instrumented server really executed for each RPC of a catalogue (every directory x every name incl. '.', '..', absent; listings; creates; all RENAME combinations incl. stale and live handles of one inode number; file operations) run ALONE on copies of base states whose children have smaller and larger numbers than their parents, with cold and warm caches. TLC explores every interleaving of every pair of programs from one base state; each reachable all-blocked state is a predicted deadlock, which is then replayed on the real server with gates at the lock hook (both RPCs must hang) before it is reported. RPCs that hang alone (self-deadlock), need more than 6 transactions (retry bound), and hangs in random and directed concurrent histories are reported as well.",
+         "TLC exploration of recorded lock programs (LockReplay.tla) + real-code replay of predicted deadlocks", "5 C06"),
+ "C11": ("exploration", "Argument-class sweep derived from the reference's case analysis: every procedure (22 NFS + 6 MOUNT) x every class of each argument (handles: live/dead/reused/0,1,3,8,15,17,32,64 bytes/inode 0, NInode-1.., 2^40, 2^64-1; names: empty, '.', '..', with '/', with NUL, 111..113, 255, 256, 4096, 70000 bytes; offsets, counts, sizes, cookies and budgets at block, indirection, wtmax, maxfilesize, 2^31, 2^32, 2^63, 2^64-1 boundaries, count != len(data)) plus seeded random class combinations, in a populated state; calls run under a watchdog with panic capture. NfsTrace (TLC) requires a reply for every call (a panic or time-out has no action in the spec), no effect of refused calls and continued conformance (tail operations, dump, structural snapshot). Coverage-guided byte-level fuzzing of XDR messages is outside this family (DESIGN.md section 8).",
+         "model-derived argument-class enumeration validated by TLC against NfsSpec (no-reply rule)", "5 C11"),
 }
 checks = []
 for pid, (cat, text, tech, ref) in claimed.items():
